@@ -106,11 +106,11 @@ class Srun(LaunchMethod):
         # cancellation
         try:
             self._log.debug('killing task %s (%d)', task['uid'], pid)
-            os.killpg(pid, signal.SIGINT)
+            self._signal_task(pid, signal.SIGINT)
 
             try:
                 time.sleep(0.1)
-                os.killpg(pid, signal.SIGINT)
+                self._signal_task(pid, signal.SIGINT)
             except OSError:
                 pass
 
@@ -118,7 +118,7 @@ class Srun(LaunchMethod):
             # NOTE: the `sleep` will limit the cancel throughput!
             try:
                 time.sleep(0.1)
-                os.killpg(pid, signal.SIGKILL)
+                self._signal_task(pid, signal.SIGKILL)
             except OSError:
                 pass
 
